@@ -107,8 +107,12 @@ FieldsNeeded(c, s1) == IF "tr" \in s1.branches /\ c.pfe = "pos" THEN {"branch_g"
 MpcWriteTap(t) == IF t = "one" THEN "zero" ELSE t
 MpcReadTap(t) == IF t = "zero" THEN "one" ELSE t
 TapAfterRoute(c, br) == IF c.route = "mpc" THEN MpcReadTap(MpcWriteTap(TapOf(c, br))) ELSE TapOf(c, br)
-FieldsCarried(route) == IF route = "ppc" THEN {"branch_g", "branch_r_asym", "branch_x_asym", "branch_g_asym", "branch_b_asym"}
-                        ELSE {}
+ExtraFields == {"branch_g", "branch_r_asym", "branch_x_asym", "branch_g_asym", "branch_b_asym"}   \* to_ppc.py:113, from_ppc.py:188-194
+\* REQUIRED: a route carries every extra field.  DEVIATION of the code, named here so that the spec predicts where the
+\* round trip must fail: _copy_data_from_mpc_to_ppc (from_mpc.py:126-145) moves them to ppc["mpc_additional_data"], where
+\* from_ppc does not look (proposed_fixes/C21_1.diff; set CodeDrops("mpc") to {} once that is applied)
+CodeDrops(route) == IF route = "mpc" THEN ExtraFields ELSE {}
+FieldsCarried(route) == ExtraFields \ CodeDrops(route)
 \* what the power flow of this configuration depends on but the route drops (REQUIRED: empty)
 Lost(c, s1) == FieldsNeeded(c, s1) \ FieldsCarried(c.route)
 
@@ -145,10 +149,17 @@ Inventory(c, s1) ==
        sgen      |-> Card({K \in s1.classes : ke[K] = "sgen"}),
        shunt     |-> Card({K \in s1.classes : HasShunt(c, K)}) ]
 
+\* from_mpc.py:86 loads the file with scipy loadmat(squeeze_me=True): a table with ONE row comes back as a vector.
+\* _adjust_ppc_indices (from_mpc.py:115-123) re-expands only "gen" before it indexes bus / branch two-dimensionally.
+\* REQUIRED: the number of rows is irrelevant.  The tables at risk are named here to key findings
+\* (proposed_fixes/C21_2.diff).
+OneRowTables(c, s1) == IF c.route # "mpc" THEN {}
+                       ELSE (IF Card(s1.branches) = 1 THEN {"branch"} ELSE {}) \cup (IF Card(s1.nodes) = 1 THEN {"bus"} ELSE {})
+
 \* the abstract outcome of one configuration (dumped by Convert.tla, recomputed by ConvertObs.tla)
 Derive(c) == LET s1 == Stage1(c)
              IN [sup |-> s1.sup, classes |-> s1.classes, aux |-> s1.aux, nodes |-> s1.nodes, branches |-> s1.branches,
-                 inv |-> Inventory(c, s1), lost |-> Lost(c, s1)]
+                 inv |-> Inventory(c, s1), lost |-> Lost(c, s1), onerow |-> OneRowTables(c, s1)]
 
 IsPartition(P, S) == /\ UNION P = S /\ {} \notin P
                      /\ \A x, y \in P : x # y => x \cap y = {}
